@@ -373,11 +373,15 @@ def shape_of(fn: ast.AST) -> str:
     def term(block: list[ast.stmt]) -> bool:
         return bool(block) and isinstance(block[-1], (ast.Return, ast.Raise, ast.Continue, ast.Break))
 
-    def blk(block: list[ast.stmt]) -> str:
+    def blk(block: list[ast.stmt], tail: str | None = None) -> str:
+        """tail: "fn" when falling off the end of this block ends the function, "loop" when it ends
+        the current iteration - a bare `return` / `continue` in that position changes nothing
+        (`if a: X elif b: Y`  ==  `if a: X; return` + `if b: Y`)."""
         out: list[str] = []
         i = 0
         while i < len(block):
             s = block[i]
+            last = i == len(block) - 1
             if isinstance(s, (ast.FunctionDef, ast.AsyncFunctionDef, ast.ClassDef, ast.Import, ast.ImportFrom, ast.Pass, ast.Global, ast.Nonlocal, ast.Assert)):
                 i += 1
                 continue
@@ -387,28 +391,33 @@ def shape_of(fn: ast.AST) -> str:
             if isinstance(s, ast.If):
                 body, orelse = s.body, s.orelse
                 rest = block[i + 1 :]
+                absorbed = False
                 if not orelse and term(body) and rest:
-                    orelse, rest = rest, []
-                    i = len(block)
-                a, b = blk(body), blk(orelse)
+                    orelse, absorbed = rest, True
+                t2 = tail if (last or absorbed) else None
+                a, b = blk(body, t2), blk(orelse, t2)
                 if a or b:
                     out.append("if{" + "|".join(sorted([a, b])) + "}")
+                if absorbed:
+                    break
                 i += 1
                 continue
             if isinstance(s, (ast.For, ast.AsyncFor, ast.While)):
-                out.append("loop{" + blk(s.body) + ("|else:" + blk(s.orelse) if s.orelse else "") + "}")
+                out.append("loop{" + blk(s.body, "loop") + ("|else:" + blk(s.orelse) if s.orelse else "") + "}")
             elif isinstance(s, ast.Try):
                 out.append("try{" + blk(s.body) + "|" + "|".join(blk(h.body) for h in s.handlers) + ("|" + blk(s.finalbody) if s.finalbody else "") + "}")
             elif isinstance(s, (ast.With, ast.AsyncWith)):
                 out.append("with{" + blk(s.body) + "}")
             elif isinstance(s, ast.Return):
-                out.append("ret")
+                if not (last and tail == "fn" and (s.value is None or (isinstance(s.value, ast.Constant) and s.value.value is None))):
+                    out.append("ret")
             elif isinstance(s, ast.Raise):
                 out.append("raise")
             elif isinstance(s, ast.Break):
                 out.append("break")
             elif isinstance(s, ast.Continue):
-                out.append("continue")
+                if not (last and tail == "loop"):
+                    out.append("continue")
             elif isinstance(s, ast.Expr):
                 out.append("call")
             elif isinstance(s, (ast.Assign, ast.AnnAssign, ast.AugAssign)):
@@ -420,4 +429,4 @@ def shape_of(fn: ast.AST) -> str:
             i += 1
         return ",".join(out)
 
-    return blk(list(getattr(fn, "body", [])))
+    return blk(list(getattr(fn, "body", [])), "fn")
